@@ -98,7 +98,7 @@ func withRandomDistribution(
 		}
 
 		var currentRate int
-		if remainingSteps == 1 || remainingRate == 0 {
+		if remainingSteps == 1 || remainingRate <= 0 {
 			currentRate = remainingRate
 		} else {
 			currentRate = randFn(remainingRate)
